@@ -31,7 +31,10 @@ def pair(case):
   kind, lr, hp = case['pair'], case['lr'], BATCHING[case['batching']]
   co = case.get('copt', 'sgd')  # client optimizer: a stateful one separates optimizer states that SGD cannot
   bk = {'backend': case['backend']} if case.get('backend') else {}
-  plain = lambda alg: (lambda st, cohort: alg.apply(st, cohort)[0])
+  def plain(alg):
+    f = lambda st, cohort: alg.apply(st, cohort)[0]
+    f.alg = alg
+    return f
   P = lambda st: st.params
   if kind == 'fedprox0':
     a, ia = systems.build('fed_prox', **bk, mu=0.0, copt=co, sopt='mom', lr_c=lr, lr_s=0.5, loss='rng', hp=hp)
@@ -135,6 +138,12 @@ def lockstep(case):
         continue
       nc = dict(case, history=h2)
       cohort = [pop[i] for i in idxs]
+      if case.get('abort'):
+        # the round first fails at its last non-empty client (a transient error in that client's data) and is then retried:
+        # whatever the failed attempt left in the long-lived algorithm objects must not reach the retry or later rounds
+        for stp, st_ in ((step_a, sa), (step_b, sb)):
+          if hasattr(stp, 'alg') and algos.aborted_round(stp.alg, st_, cohort):
+            stats['aborted'] = stats.get('aborted', 0) + 1
       na, nb = step_a(sa, cohort), step_b(sb, cohort)
       ga = {k: np.asarray(v, np.float64) for k, v in pa(na).items()}
       gb = {k: np.asarray(v, np.float64) for k, v in pb(nb).items()}
@@ -164,6 +173,7 @@ def lockstep(case):
   return {'evals': stats['transitions'], 'states': stats['states'], 'transitions': stats['transitions'],
           'traces': stats['transitions'], 'outcomes': sorted(outs), 'nontrivial': True, 'violations': viols,
           'keys': [[case['pair'], case.get('copt', 'sgd'), case.get('backend', 'jit'), case['lr'], case['batching'], i] for i in range(stats['transitions'])],
+          'stats': {'aborted_attempts_before_retry': stats.get('aborted', 0)},
           'sample': {'pair': case['pair'], 'lr': case['lr'], 'batching': case['batching'],
                      'transitions': stats['transitions'], 'distinct_parameter_vectors': len(outs)}}
 
@@ -197,6 +207,8 @@ def plan(ctx):
   # clients whose datasets carry a batch-level preprocessor (centring on the batch mean): both sides must see the same batches
   for p in ('fedprox0', 'hyp1', 'mimelite_sgd', 'apfl_global'):
     cs.append({'pair': p, 'lr': 0.125, 'batching': 'b2e1', 'depth': 2, 'seed': ctx.seed, 'batch_level_pre': True})
+  for p in ('fedprox0', 'hyp1', 'mimelite_sgd', 'apfl_global'):
+    cs.append({'pair': p, 'lr': 0.125, 'batching': 'b2e1', 'depth': 2 if not th else 3, 'seed': ctx.seed, 'abort': True})
   cs.append({'pair': 'mimelite_sgd_clip', 'lr': 0.125, 'batching': 'b2e1', 'depth': depth, 'seed': ctx.seed})
   for p in ('fedprox0', 'hyp1', 'apfl_global'):
     for co in ('mom', 'adam') if th else ('mom',):
